@@ -522,6 +522,109 @@ def r_land_stretch(rep, f):
                 rep.ok("R-LAND-STRETCH", key, "stretch factor(s) %s" % ([float(x) for x in facs] or [1.0]))
 
 
+def r_land_stretch_sem(rep, f):
+    """semantic form of the 1% rule: a test in a main loop that replaces the step variable by the remaining distance
+    (`if C { h = xend - x }`) is evaluated numerically at model points: the step P it would otherwise take (the value at the
+    loop head, or the value the else-branch assigns) and the remaining distance D = r * P for ratios r on both sides of 1.01,
+    both directions, several magnitudes and abscissae. C may hold only where r <= 1.01: the step is stretched by at most 1%.
+    Tests whose operands include quantities with no model value (user parameters, error norms) are left to the literal rule."""
+    import pnum
+    RS = [0.2, 0.5, 0.9, 0.99, 1.0, 1.005, 1.0099, 1.010001, 1.011, 1.02, 1.1, 1.3, 1.49, 1.51, 2.0, 3.7, 10.0]
+    for mod, ty in SOLVERS:
+        fn = solve_fn(mod, ty)
+        key = "R-LAND-STRETCH:%s:semantic" % fn
+        try:
+            variants = rk.analyse_variants(f, fn)
+        except rk.AnalysisError as e:
+            rep.inconc("R-LAND-STRETCH", key, str(e))
+            continue
+        seen = set()
+        worst = None
+        n_eval = 0
+        n_tests = set()
+        skipped = []
+        for tag, sx, hk in variants:
+            if hk.main_loop is None:
+                continue
+            assigns = {}
+            for ev in sx.trace:
+                if ev.get("kind") == "assign" and isinstance(ev.get("node"), dict) and ev.get("lv") and ev["lv"][0] == "key":
+                    assigns[id(ev["node"])] = ev
+            ifs = {id(ev["node"]): ev for ev in sx.trace if ev.get("kind") == "if" and isinstance(ev.get("cond"), Poly)}
+            for a, parents in tast.find_with_parents(hk.main_loop, lambda z: z.get("k") == "Assign" and id(z) in assigns
+                                                     and tast.contains(z["r"], lambda q: q.get("k") == "Path" and q.get("name") == "xend")
+                                                     and tast.contains(z["r"], lambda q: q.get("k") == "Binary" and q["op"] == "Sub")):
+                nd = next((p_ for p_ in reversed(parents) if p_.get("k") == "If"), None)
+                if nd is None or id(nd) not in ifs or not tast.contains(nd["then"], lambda z: z is a):
+                    continue
+                cond = ifs[id(nd)]["cond"]
+                ck = (id(nd), repr(cond))
+                if ck in seen:
+                    continue
+                seen.add(ck)
+                vkey = assigns[id(a)]["lv"][1]
+                D = assigns[id(a)].get("value")
+                # P: what the variable holds when the test fails
+                P = None
+                if nd.get("else") is not None:
+                    els = [assigns[id(z)] for z in tast.find(nd["else"], lambda z: z.get("k") == "Assign" and id(z) in assigns and assigns[id(z)]["lv"][1] == vkey)]
+                    if els:
+                        P = els[-1].get("value")
+                if P is None:
+                    P = (hk.head or {}).get(vkey)
+                pat = P.single_atom() if isinstance(P, Poly) else None
+                if pat is None or not isinstance(D, Poly) or pat in ("X", "xend"):
+                    skipped.append("`%s`: the step it replaces is not a single value" % tast.render(nd["cond"])[:50])
+                    continue
+                # signed remaining distance A (D itself, or the argument of the |.| it is)
+                A = D
+                magnitude = False
+                da = D.single_atom()
+                if da and DEFS.get(da, ("",))[0] == "abs":
+                    A = DEFS[da][1][0]
+                    magnitude = True
+                done = False
+                for sgn in (1.0, -1.0):
+                    for H in (0.25, 3.0):
+                        for X in (1.0, -2.0, 0.0):
+                            for r in RS:
+                                Pv = H if magnitude else sgn * H
+                                env = {"X": X, pat: Pv, "x0": X - 5.0 * sgn * H, "xend": 0.0}
+                                hh = (hk.head or {}).get(vkey)
+                                if isinstance(hh, Poly) and hh.single_atom() and hh.single_atom() not in env:
+                                    env[hh.single_atom()] = 0.5 * Pv
+                                try:
+                                    A0 = pnum.value(A, env, None)
+                                    env["xend"] = r * sgn * H - A0
+                                    if abs(pnum.value(A, env, None) - r * sgn * H) > 1e-9 * max(1.0, H):
+                                        raise pnum.NoEval("remaining distance is not xend - x")
+                                    c = pnum.value(cond, env, None)
+                                except pnum.NoEval as e:
+                                    skipped.append("`%s`: %s" % (tast.render(nd["cond"])[:50], e))
+                                    done = True
+                                    break
+                                except ZeroDivisionError:
+                                    continue
+                                n_eval += 1
+                                n_tests.add(id(nd))
+                                if c is True and r > 1.01 * (1 + 1e-9) and (worst is None or r > worst[0]):
+                                    worst = (r, nd, tag, sgn)
+                            if done:
+                                break
+                        if done:
+                            break
+                    if done:
+                        break
+        if worst:
+            r, nd, tag, sgn = worst
+            rep.violation("R-LAND-STRETCH", key, "the test `%s` replaces the step by the remaining distance although that distance is %.4g times the step (%s integration): "
+                          "the last reported interval is longer than the step size by more than the permitted 1%% (path variant %s)" % (tast.render(nd["cond"])[:70], r, "forward" if sgn > 0 else "backward", tag), nd.get("sp"))
+        elif n_eval:
+            rep.ok("R-LAND-STRETCH", key, "%d clip test(s) hold only for remaining/step <= 1.01 at %d model evaluations" % (len(n_tests), n_eval))
+        elif skipped:
+            rep.note("R-LAND-STRETCH %s: clip test not evaluated numerically (%s)" % (fn, skipped[0][:160]))
+
+
 # ------------------------------------------------------------------------------------------ R-AFF-CRANGE (all six)
 def r_crange_all(rep, f):
     """every stage of a step is evaluated at x + tau*(step taken) with 0 <= tau <= 1"""
